@@ -713,6 +713,26 @@ pub fn wait_op(i: usize) {
     }
 }
 
+/// slow reporter fault: called from inside report(); sleeps if this is the configured call
+pub fn report_stall(batch_idx: usize) {
+    let d = {
+        let mut st = lock_st();
+        match st.cfg.report_stall {
+            Some((k, ns)) if k as usize == batch_idx => {
+                let (c, e) = (st.clock, st.clock + ns);
+                st.stall_windows.push((c, e));
+                let me = st.me();
+                st.push_ev(me, K_STALL, ns, 1);
+                Some(ns)
+            }
+            _ => None,
+        }
+    };
+    if let Some(ns) = d {
+        h_sleep(Duration::from_nanos(ns));
+    }
+}
+
 pub fn set_shutting_down() {
     lock_st().shutting_down = true;
 }
